@@ -185,6 +185,7 @@ func (fs *FS) parent(p string) (*node, string, error) {
 
 func (fs *FS) enter(op, name string, mut bool) error {
 	simrt.Point("fs." + op)
+	simrt.Progress()
 	fs.Calls[op]++
 	if fs.Hooks.Before != nil {
 		if err := fs.Hooks.Before(op, name, mut); err != nil {
@@ -457,6 +458,7 @@ func (f *File) Name() string { return f.name }
 
 func (f *File) enter(op string, mut bool) error {
 	simrt.Point("file." + op)
+	simrt.Progress()
 	f.fs.Calls["f."+op]++
 	if f.closed {
 		return perr(op, f.name, os.ErrClosed)
